@@ -55,9 +55,15 @@ XStep(st, e, t) ==
            ELSE Finish(st, e, [st EXCEPT !.m = OnHeartbeat(e.byte)], <<>>)
       [] e.e = "wait" ->
            \* fed: heartbeat bytes delivered while the caller was waiting
-           LET after == IF e.fed = <<>> THEN st.m ELSE OnHeartbeat(e.fed[Len(e.fed)])
-               new == [st EXCEPT !.m = after]
-           IN IF e.kind = "hb"
+           \* inj: a command frame of a third party that reached both networks while the caller was
+           \* already waiting (<<>> = none); it changes the states like any such frame, but it is not
+           \* a heartbeat: the wait goes on
+           LET st0 == IF e.inj = <<>> THEN st
+                      ELSE [m |-> OnCommand(st.m, t.nid, e.inj[1], e.inj[2]), s |-> OnCommand(st.s, t.nid, e.inj[1], e.inj[2])]
+               after == IF e.fed = <<>> THEN st0.m ELSE OnHeartbeat(e.fed[Len(e.fed)])
+               new == [st0 EXCEPT !.m = after]
+           IN IF e.early THEN Bad(st, "the wait failed with NmtError before its time-out had run out")
+              ELSE IF e.kind = "hb"
                 THEN IF e.fed = <<>>
                        THEN IF e.result # "NmtError" THEN Bad(st, "wait_for_heartbeat without heartbeat did not fail with NmtError")
                             ELSE Finish(st, e, new, <<>>)
